@@ -156,6 +156,7 @@ def result_shape(S):
     real.resolved_for = S.vars["connection"].slots["user"].fut.value
     real.resolved_phase = getattr(getattr(S.vars["connection"], "session", None), "phase", 1)
     virtual = PathVal("posix", "/", models_path.fresh_seq("virtual"), abs_known=True)
+    virtual.virtual_of = real
     return (real, virtual)
 
 
@@ -178,6 +179,7 @@ def _opaque_result(S):
     real.resolved_for = S.vars["connection"].slots["user"].fut.value
     real.resolved_phase = getattr(getattr(S.vars["connection"], "session", None), "phase", 1)
     virtual = PathVal("any", None, None, opaque=z3.Const(f"virtual!{next(models_path._ctr)}", models_path.OP))
+    virtual.virtual_of = real
     return (real, virtual)
 
 
